@@ -7,8 +7,8 @@
    The main statement holds for every class and every input (no domain restriction since the
    empty-string alias was repaired in /repo 7108448). *)
 From Coq Require Import List String Ascii ZArith Bool.
-From Verif Require Import Regex PyK PyK_strat PyK_alias FieldDecl FieldDeclProofs KeyModel KeyImpl KeyProofs KeyDecl KeyCfg KeyNested KeyRewrite KeyHook KeyDc KeyDcDecl KeyDeep KeyDeepHook PyK_clsdiscr KeyDiscr KeyHookLookup KeyFull.
-From VerifGen Require Import K4 K5 K109a K109b.
+From Verif Require Import Regex PyK PyK_strat PyK_alias FieldDecl FieldDeclProofs KeyModel KeyImpl KeyProofs KeyDecl KeyCfg KeyNested KeyRewrite KeyHook KeyDc KeyDcDecl KeyDeep KeyDeepHook PyK_clsdiscr KeyDiscr KeyHookLookup KeyFull KeyInit.
+From VerifGen Require Import K4 K5 K109a K109b K109c.
 Import ListNotations.
 Open Scope string_scope.
 Open Scope list_scope.
@@ -444,6 +444,35 @@ Example C09_nonvacuous_from_class :
   /\ impl_from_class [k; a] hooks true [(KeyS "legacy", 1%Z); (KeyS "u", 2%Z)] = Ok (Body (OExtra [KeyS "u"]))
   /\ impl_from_class [k; a] [None; None] true [(KeyS "legacy", 1%Z); (KeyS "t", 2%Z)] = Ok (Body (OExtra [KeyS "legacy"]))
   /\ impl_from_class [a] [Some [HDrop (KeyS "t")]] true [(KeyS "t", 2%Z)] = Ok Dispatcher.
+Proof. repeat split; vm_compute; reflexivity. Qed.
+
+(* ---- which members are read at all: the skip test of the field loop of _add_unpack_method_lines translated (K109c) ----
+   over the declarations a hierarchy collects the loop leaves exactly the init fields in definition order
+   (KeyModel.effective, until now a hand-written `filter snd`); a name without dataclass field is read *)
+Theorem C09_init_filter : forall ls,
+  filtered_code (collect ls) = Ok (effective ls) /\ reads None = Ok true /\ forall p, reads (Some p) = Ok (snd p).
+Proof. intro ls. split; [apply filtered_code_effective | split; [exact reads_none | exact reads_some]]. Qed.
+Print Assumptions C09_init_filter.
+
+(* C09_from_class with the fields chosen by the translated loop test as well *)
+Theorem C09_from_class_fields : forall r hooks mixin d,
+  impl_from_class_fields r hooks mixin d
+  = Ok (match own_discr r with
+        | Some _ => Dispatcher
+        | None => Body (keymodel (class_of (rev (map fst r)) (nearest_discr r))
+                                 (apply_hook (declared_hook (rev hooks)) d))
+        end).
+Proof. exact impl_from_class_fields_keymodel. Qed.
+Print Assumptions C09_from_class_fields.
+
+(* A: x, w; K(A) re-declares w as field(init=False): K.from_dict reads x only, "w" is an extra key *)
+Example C09_nonvacuous_init_filter :
+  let a := (mkL [(mkF "x" None None false, true); (mkF "w" None None true, true)] None, DAbsent) in
+  let k := (mkL [(mkF "w" None None true, false)] (Some (mkCD false false None None (Some true))), DAbsent) in
+  filtered_code (collect [fst a; fst k]) = Ok [mkF "x" None None false]
+  /\ impl_from_class_fields [k; a] [None; None] true [(KeyS "x", 1%Z); (KeyS "w", 2%Z)] = Ok (Body (OExtra [KeyS "w"]))
+  /\ impl_from_class_fields [a] [None] true [(KeyS "x", 1%Z); (KeyS "w", 2%Z)]
+     = Ok (Body (OInst [("x", Some (KeyS "x", 1%Z)); ("w", Some (KeyS "w", 2%Z))])).
 Proof. repeat split; vm_compute; reflexivity. Qed.
 
 (* ---- arbitrary MROs (diamonds): a model of CPython's dataclass walk and of get_type_hints ---- *)
